@@ -224,7 +224,12 @@ class World(object):
                     self.behind_hello = self.first_stanza(act["then"])
                 self.net.onConnected()
             elif name in ("Success", "Failure"):
-                self.server_stanza(self.first_stanza(name))
+                node = self.first_stanza(name)
+                if act.get("malformed"):
+                    # a success stanza the authentication layer cannot convert into its entity (attributes missing)
+                    from yowsup.structs import ProtocolTreeNode as _N
+                    node = _N("success", {"props": "2"})
+                self.server_stanza(node)
             elif name == "StreamError":
                 kids = [ProtocolTreeNode(act["kind"])]
                 if act["kind"] == "conflict":
